@@ -43,6 +43,10 @@ Marshal ==
           \cup (IF encoded /\ ~IsErr(exp) /\ Ev.dec = "error" THEN {V("C05", "decode_succeeds", Sit)} ELSE {})
           \cup (IF encoded /\ ~IsErr(exp) /\ Ev.dec = "" /\ Val(Ev.back) # Val(Ev.node) THEN {V("C05", "round_trip", Sit)} ELSE {})
           \cup (IF IsErr(exp) /\ crashed THEN {V("C05", "unsupported_is_error", Sit)} ELSE {})
+          \* a value the reference cannot encode (an unsupported construct inside it) was encoded all the same, and what
+          \* decodes from those octets is another value
+          \cup (IF IsErr(exp) /\ encoded /\ Ev.dec = "" /\ Val(Ev.back) # Val(Ev.node)
+                  THEN {V("C05", "unsupported_is_error", [Sit EXCEPT !.kind = "wrong value"])} ELSE {})
         /\ div' = div \cup (IF IsErr(exp) /\ encoded THEN {[trace |-> Ev.trace, step |-> Ev.seq, what |-> "reference rejects, codec encodes", type |-> Ev.type]} ELSE {})
                       \cup (IF encoded /\ Ev.dec = "" /\ (Val(Ev.back) = Val(Ev.node)) # Ev.deq
                               THEN {[trace |-> Ev.trace, step |-> Ev.seq, what |-> "tree equality and reflect.DeepEqual disagree", type |-> Ev.type]} ELSE {})
